@@ -250,7 +250,13 @@ func (s *Session) Run(ctx context.Context, dir string, args ...string) error {
 						log.Printf("ignoring %s", line)
 						continue
 					} else {
-						for _, output := range iop.OutputSet {
+						for i := range iop.OutputSet {
+							// By reference: we record below
+							// that this output has been
+							// seen, so that a second
+							// message like the first
+							// doesn't count again.
+							output := &iop.OutputSet[i]
 							if output.Bindingss != nil {
 								continue
 							}
